@@ -112,11 +112,11 @@ type raceOutcome struct {
 	wall     time.Duration
 }
 
-func runRaceScript(timeout time.Duration) raceOutcome {
+func runRaceScript(timeout time.Duration, reps int) raceOutcome {
 	start := time.Now()
 	ctx, cancel := context.WithTimeout(context.Background(), timeout)
 	defer cancel()
-	cmd := exec.CommandContext(ctx, "/bin/bash", raceScript)
+	cmd := exec.CommandContext(ctx, "/bin/bash", raceScript, fmt.Sprint(reps))
 	cmd.SysProcAttr = &syscall.SysProcAttr{Setpgid: true}
 	cmd.Cancel = func() error { return syscall.Kill(-cmd.Process.Pid, syscall.SIGKILL) }
 	cmd.WaitDelay = 2 * time.Second
@@ -130,9 +130,13 @@ type raceRun struct{ done chan raceOutcome }
 
 // startRacePass runs the script in the background of worker 0 (it only waits for a subprocess; the
 // scheduler's executions do not depend on it).
-func startRacePass() *raceRun {
+func startRacePass(quick bool) *raceRun {
 	r := &raceRun{done: make(chan raceOutcome, 1)}
-	go func() { r.done <- runRaceScript(40 * time.Second) }()
+	reps, limit := 6, 50*time.Second
+	if !quick {
+		reps, limit = 24, 120*time.Second
+	}
+	go func() { r.done <- runRaceScript(limit, reps) }()
 	return r
 }
 
@@ -149,21 +153,22 @@ func (r *raceRun) collect(c *harness.Ctx) {
 	o := <-r.done
 	c.Count("racepass_wall_ms", o.wall.Milliseconds())
 	sum := summaryLine(o.out)
+	reports, total := parseRaceReports(o.out)
+	c.Count("racepass_reports_total", int64(total))
+	c.Count("racepass_reports_with_eino_frames", int64(len(reports)))
 	if o.timedOut || sum == "" {
-		// not a verdict about the code: the race clause was not decided in this run
-		tail := o.out
+		// not a verdict about the code: the race clause was not (fully) decided in this run; whatever the
+		// detector reported before the pass stopped still counts
+		tail := reAddr.ReplaceAllString(o.out, "0x?")
 		if len(tail) > 600 {
 			tail = tail[len(tail)-600:]
 		}
 		c.Res.Capped, c.Res.CapReason = true, "race pass did not complete (data-race clause undecided in this run)"
 		c.Res.Notes = append(c.Res.Notes, fmt.Sprintf("race pass did not complete (timeout=%v, err=%v): %s", o.timedOut, o.err, tail))
-		return
+	} else {
+		c.Count("racepass_completed", 1)
+		c.Res.Notes = append(c.Res.Notes, "race pass: "+sum)
 	}
-	reports, total := parseRaceReports(o.out)
-	c.Count("racepass_completed", 1)
-	c.Count("racepass_reports_total", int64(total))
-	c.Count("racepass_reports_with_eino_frames", int64(len(reports)))
-	c.Res.Notes = append(c.Res.Notes, "race pass: "+sum)
 	for _, l := range strings.Split(o.out, "\n") {
 		if strings.HasPrefix(l, "MISMATCH ") {
 			c.Count("racepass_free_run_mismatches", 1)
@@ -193,7 +198,7 @@ func replayRace(c *harness.Ctx, v *harness.Violation) {
 	var rc raceCase
 	json.Unmarshal(b, &rc)
 	for attempt := 1; attempt <= 5; attempt++ {
-		o := runRaceScript(90 * time.Second)
+		o := runRaceScript(90*time.Second, 6)
 		reports, _ := parseRaceReports(o.out)
 		for _, rp := range reports {
 			if rp.function == rc.Function {
